@@ -3,8 +3,7 @@ import Gv.Model.Fmt.Nexus
 import Gv.Proofs.StockholmRT
 import Gv.Model.Fmt.Auto
 import Gv.Proofs.NexusRT
-import Gv.Proofs.PhylipRT3
-import Gv.Proofs.ClustalRT4
+import Gv.Proofs.ReprRows
 /-!
 C02 — every alignment format round-trips losslessly through writer and parser.
 
@@ -12,18 +11,18 @@ C02 — every alignment format round-trips losslessly through writer and parser.
 "the same detected alphabet" is `Model.autoAlphabet` of the rows that were written (goalign's own
 detection over the character classes regenerated from the source).
 
-Proved: FASTA, complete (every wrap width `w > 0`, every number of rows, every length, every
-duplicate-name policy, with or without the proposed "no sequence ⇒ error" patch).
-Open (stated, checked on the implementation by the oracle predicate on every run, see `PARTIAL` in
+Proved: FASTA (every wrap width `w > 0`, every number of rows, every length, every duplicate-name policy,
+with or without the proposed "no sequence ⇒ error" patch), Stockholm, Nexus (repaired parser; the unrepaired
+one has the kernel-checked counter-example below), Phylip (`roundtrip_phylip`: all 8 combinations of
+strict / one-line / no-block; `roundtrip_phylip_widths`: every line and group width), Clustal
+(`roundtrip_clustal`), and the auto-detection of the written format.  Helper developments:
+`Proofs/{FastaRT, StockholmRT, NexusRT, PhylipRT, PhylipRT2, PhylipRT3, ClustalRT … ClustalRT4, ReprRows}.lean`.
+
+Open (checked on the implementation by the oracle predicate on every run, see `PARTIAL` in
 driver/props/c02.py):
 
-  theorem roundtrip_phylip (strict oneline noblock) (rows) (h : reprPhylip strict rows) :
-      Phylip.parse ⟨strict, 0, 2⟩ (Phylip.write strict oneline noblock rows) = ok ⟨autoAlphabet …, L, rows⟩
   theorem phylip_multi (as) (h : ∀ a ∈ as, reprPhylip strict a) :
       Phylip.parseMultiple strict (as.flatMap (Phylip.write strict ol nb)) = (as.map …, ok)
-  theorem roundtrip_nexus / roundtrip_clustal / roundtrip_stockholm  (same shape; Nexus additionally
-      needs "no row spells a reserved word", which is the recorded finding `nexus-keyword-row`)
-  theorem autodetect (h : repr f rows) : Auto.detect (write f rows) = f       -- f ∈ fasta, nexus, clustal, phylip
 -/
 namespace Gv.Props.C02
 open Gv Gv.Model Gv.Model.Fmt Gv.Model.Fmt.Fasta Gv.Proofs.FastaRT
@@ -649,46 +648,8 @@ end NexusRT
 /-! ## Phylip -/
 
 section PhylipRT
-open Gv.Proofs.PhylipRT
+open Gv.Proofs.PhylipRT Gv.Proofs.ReprRows
 open Gv.Spec.Fmt (reprPhylip)
-
-private theorem ph_name_byte : ∀ b : Byte, isPrintable b = true →
-    Phylip.identChar b = true ∧ Phylip.isWS b = false := by decide
-
-private theorem ph_residue_byte : ∀ b : Byte, (isNt b || isSpecial b) = true ∨ (isAa b || isSpecial b) = true →
-    Phylip.identChar b = true ∧ Phylip.isWS b = false ∧ Phylip.isDigit b = false ∧ b ≠ 43 := by decide
-
-/-- what `reprPhylip` gives row by row -/
-private theorem ph_repr_rows (strict : Bool) (rows : List XRow) (h : reprPhylip strict rows = true) :
-    rows ≠ [] ∧ ∃ L, 1 ≤ L ∧ (∀ r ∈ rows, RowOk strict L r) ∧ distinct (rows.map (·.1)) = true := by
-  simp only [reprPhylip, reprBase, Bool.and_eq_true, Bool.or_eq_true, Bool.not_eq_true'] at h
-  obtain ⟨⟨⟨⟨hrect, hres⟩, hdist⟩, hnames⟩, hstrict⟩ := h
-  cases rows with
-  | nil => simp [rectangular] at hrect
-  | cons r0 rs =>
-    simp only [rectangular, Bool.and_eq_true, decide_eq_true_eq, List.all_eq_true, beq_iff_eq] at hrect
-    have hlen : ∀ r ∈ r0 :: rs, r.2.length = r0.2.length := by
-      intro r hr
-      cases hr with
-      | head => rfl
-      | tail _ hr => exact hrect.2 r hr
-    refine ⟨by simp, r0.2.length, hrect.1, ?_, hdist⟩
-    intro r hr
-    have hn := (List.all_eq_true.mp hnames) r hr
-    simp only [Bool.and_eq_true, Bool.not_eq_true', List.all_eq_true] at hn
-    have hne : r.1 ≠ [] := by
-      intro e; rw [e] at hn; simp at hn
-    refine ⟨⟨hne, fun b hb => ph_name_byte b (hn.2 b hb)⟩, ?_, ?_, hlen r hr⟩
-    · intro hs
-      cases hstrict with
-      | inl h => rw [hs] at h; cases h
-      | inr h => simpa using (List.all_eq_true.mp h) r hr
-    · intro b hb
-      apply ph_residue_byte
-      simp only [residuesOk, Bool.or_eq_true, List.all_eq_true] at hres
-      cases hres with
-      | inl h1 => left; simpa using h1 r hr b hb
-      | inr h1 => right; simpa using h1 r hr b hb
 
 /-- **Phylip round trip, every line width and group width** (`line`, `block` > 0; Go: 60 and 10, the alignment
 length with `oneline`, the line width with `noblock`), strict and relaxed name column, every duplicate-name
@@ -757,57 +718,8 @@ end PhylipRT
 /-! ## Clustal -/
 
 section ClustalRT
-open Gv.Proofs.ClustalRT
+open Gv.Proofs.ClustalRT Gv.Proofs.ReprRows
 open Gv.Spec.Fmt (reprClustal upperName)
-
-private theorem cl_residue_byte : ∀ b : Byte,
-    ((isNt b || isSpecial b) = true → Clustal.upper b ≠ 76) ∧ ((isAa b || isSpecial b) = true → Clustal.upper b ≠ 85) := by
-  decide
-
-private theorem cl_upper : Clustal.upper = Spec.Fmt.upper := rfl
-
-/-- what `reprClustal` gives row by row -/
-private theorem cl_repr_rows (rows : List XRow) (h : reprClustal rows = true) :
-    rows ≠ [] ∧ ∃ L, 1 ≤ L ∧ (∀ r ∈ rows, RowOk L W r) ∧ distinct (rows.map (·.1)) = true := by
-  simp only [reprClustal, reprBase, Bool.and_eq_true] at h
-  obtain ⟨⟨⟨⟨hrect, hres⟩, hdist⟩, hnames⟩, hcl⟩ := h
-  cases rows with
-  | nil => simp [rectangular] at hrect
-  | cons r0 rs =>
-    simp only [rectangular, Bool.and_eq_true, decide_eq_true_eq, List.all_eq_true, beq_iff_eq] at hrect
-    have hlen : ∀ r ∈ r0 :: rs, r.2.length = r0.2.length := by
-      intro r hr
-      cases hr with
-      | head => rfl
-      | tail _ hr => exact hrect.2 r hr
-    refine ⟨by simp, r0.2.length, hrect.1, ?_, hdist⟩
-    intro r hr
-    have hn := (List.all_eq_true.mp hnames) r hr
-    simp only [Bool.and_eq_true, Bool.not_eq_true', List.all_eq_true] at hn
-    have hc := (List.all_eq_true.mp hcl) r hr
-    simp only [Bool.and_eq_true, bne_iff_ne, ne_eq] at hc
-    have hne : r.1 ≠ [] := by
-      intro e; rw [e] at hn; simp at hn
-    have hrun : Gv.Proofs.PhylipRT.Run r.1 := ⟨hne, fun b hb => ph_name_byte b (hn.2 b hb)⟩
-    have hname : NameOk r.1 := by
-      refine ⟨hrun, ?_⟩
-      unfold classify
-      by_cases hi : (Phylip.parseInt64 r.1).isSome = true
-      · right; simp [hi]
-      · left
-        have h1 : ¬ (r.1.map Clustal.upper = [67, 76, 85, 83, 84, 65, 76]) := by rw [cl_upper]; exact hc.1
-        have h2 : ¬ (r.1.map Clustal.upper = [67, 76, 85, 83, 84, 65, 76, 87]) := by rw [cl_upper]; exact hc.2
-        simp [hi, h1, h2]
-    simp only [residuesOk, Bool.or_eq_true, List.all_eq_true] at hres
-    refine rowOk_of _ r hname (hlen r hr) ?_ ?_
-    · intro b hb
-      apply ph_residue_byte
-      cases hres with
-      | inl h1 => left; simpa using h1 r hr b hb
-      | inr h1 => right; simpa using h1 r hr b hb
-    · cases hres with
-      | inl h1 => left; exact fun b hb => (cl_residue_byte b).1 (by simpa using h1 r hr b hb)
-      | inr h1 => right; exact fun b hb => (cl_residue_byte b).2 (by simpa using h1 r hr b hb)
 
 /-- **Clustal round trip**: for every representable alignment (any number of rows, any length: any number
 of blocks of `CLUSTAL_LINE` = 50 residues with their cumulative counts and conservation lines), whatever
